@@ -118,8 +118,26 @@ def check_values(rng, n, res: CaseResult):
                 want = refscheme.key({'p': v}, {}, None)
             except TypeError:
                 continue
+            given = v
+            if rng.random() < 0.3:
+                # the same mapping handed over as a dict SUBCLASS with another insertion order (OrderedDict, defaultdict, attribute-access dicts of code-built configs)
+                import collections
+
+                class AttrDict(dict):
+                    __getattr__ = dict.get
+
+                def resub(x):
+                    if isinstance(x, dict):
+                        items = [(k_, resub(y_)) for k_, y_ in reversed(list(x.items()))]
+                        kind_ = rng.choice(['od', 'dd', 'attr'])
+                        return collections.OrderedDict(items) if kind_ == 'od' else (collections.defaultdict(list, items) if kind_ == 'dd' else AttrDict(items))
+                    if isinstance(x, list):
+                        return [resub(y_) for y_ in x]
+                    return x
+                given = resub(v)
+                res.count('values_given_as_dict_subclasses')
             try:
-                got = key_of(v, tmp)
+                got = key_of(given, tmp)
             except Exception as e:
                 res.violate(f'parameter value {v!r}: the chain could not derive a key: {type(e).__name__}: {e}', witness={'value': repr(v)}, facts={'tag': 'value_key'})
                 continue
